@@ -372,17 +372,160 @@ fn zarr_case(report: &mut Report, preset: Preset, seed: u64) {
     }
 }
 
+// ── struct-literal cases: every Rust field set explicitly (catches serde `skip` / `default` attributes) ─────
+
+use nuts_rs::verif::DualAverageOptions;
+use nuts_rs::{
+    AdamOptions, DiagAdaptExpSettings, EuclideanAdaptOptions, FlowSettings, KineticEnergyKind, LowRankSettings,
+    MclmcSettings, MclmcTrajectoryKind, NutsSettings, StepSizeAdaptMethod, StepSizeAdaptOptions, StepSizeSettings,
+};
+
+fn lit_step(rng: &mut HRng) -> StepSizeSettings {
+    StepSizeSettings {
+        target_accept: random_f64(rng),
+        initial_step: random_f64(rng),
+        jitter: if rng.bool(0.3) { None } else { Some(random_f64(rng)) },
+        adapt_options: StepSizeAdaptOptions {
+            method: match rng.below(3) {
+                0 => StepSizeAdaptMethod::DualAverage,
+                1 => StepSizeAdaptMethod::Adam,
+                _ => StepSizeAdaptMethod::Fixed(random_f64(rng)),
+            },
+            dual_average: DualAverageOptions { k: random_f64(rng), t0: random_f64(rng), gamma: random_f64(rng), max_step_size: random_f64(rng) },
+            adam: AdamOptions { beta1: random_f64(rng), beta2: random_f64(rng), epsilon: random_f64(rng), learning_rate: random_f64(rng) },
+        },
+    }
+}
+
+fn lit_euclid<S: std::fmt::Debug + Default>(rng: &mut HRng, mm: S) -> EuclideanAdaptOptions<S> {
+    EuclideanAdaptOptions {
+        step_size_settings: lit_step(rng),
+        mass_matrix_options: mm,
+        early_window: random_f64(rng),
+        step_size_window: random_f64(rng),
+        mass_matrix_switch_freq: random_u64(rng),
+        early_mass_matrix_switch_freq: random_u64(rng),
+        mass_matrix_update_freq: random_u64(rng),
+        mass_matrix_window_growth: random_f64(rng),
+    }
+}
+
+fn lit_diag(rng: &mut HRng) -> DiagAdaptExpSettings {
+    DiagAdaptExpSettings { store_mass_matrix: rng.bool(0.5), use_grad_based_estimate: rng.bool(0.5) }
+}
+
+fn lit_lowrank(rng: &mut HRng) -> LowRankSettings {
+    LowRankSettings { store_mass_matrix: rng.bool(0.5), gamma: random_f64(rng), eigval_cutoff: random_f64(rng) }
+}
+
+fn lit_flow(rng: &mut HRng) -> FlowSettings {
+    FlowSettings {
+        step_size_window: random_f64(rng),
+        transform_update_freq: random_u64(rng),
+        use_orbit_for_training: rng.bool(0.5),
+        step_size_settings: lit_step(rng),
+        transform_train_max_energy_error: random_f64(rng),
+    }
+}
+
+fn lit_nuts<A: std::fmt::Debug + Copy + Default + serde::Serialize>(rng: &mut HRng, a: A) -> NutsSettings<A> {
+    NutsSettings {
+        num_tune: random_u64(rng),
+        num_draws: random_u64(rng),
+        maxdepth: random_u64(rng),
+        mindepth: random_u64(rng),
+        store_gradient: rng.bool(0.5),
+        store_unconstrained: rng.bool(0.5),
+        store_transformed: rng.bool(0.5),
+        max_energy_error: random_f64(rng),
+        store_divergences: rng.bool(0.5),
+        adapt_options: a,
+        check_turning: rng.bool(0.5),
+        target_integration_time: if rng.bool(0.3) { None } else { Some(random_f64(rng)) },
+        trajectory_kind: *rng.choose(&[KineticEnergyKind::Euclidean, KineticEnergyKind::ExactNormal, KineticEnergyKind::Microcanonical]),
+        num_chains: random_u64(rng) as usize,
+        seed: random_u64(rng),
+        extra_doublings: random_u64(rng),
+    }
+}
+
+fn lit_mclmc<A: std::fmt::Debug + Copy + Default + serde::Serialize>(rng: &mut HRng, a: A) -> MclmcSettings<A> {
+    MclmcSettings {
+        step_size: random_f64(rng),
+        momentum_decoherence_length: random_f64(rng),
+        num_tune: random_u64(rng),
+        num_draws: random_u64(rng),
+        num_chains: random_u64(rng) as usize,
+        seed: random_u64(rng),
+        max_energy_error: random_f64(rng),
+        store_unconstrained: rng.bool(0.5),
+        store_gradient: rng.bool(0.5),
+        store_transformed: rng.bool(0.5),
+        store_divergences: rng.bool(0.5),
+        adapt_options: a,
+        subsample_frequency: random_f64(rng),
+        dynamic_step_size: rng.bool(0.5),
+        trajectory_kind: *rng.choose(&[
+            MclmcTrajectoryKind::Microcanonical,
+            MclmcTrajectoryKind::Euclidean,
+            MclmcTrajectoryKind::EuclideanEarlyThenMicrocanonical,
+        ]),
+        trajectory_switch_fraction: random_f64(rng),
+    }
+}
+
+/// Debug renderings of (original, value round trip, string round trip).
+fn lit_round_trip<S: Settings + std::fmt::Debug>(s: S) -> Result<(String, String, String, String), String> {
+    let v = serde_json::to_value(s).map_err(|e| format!("to_value: {e}"))?;
+    let a: S = serde_json::from_value(v).map_err(|e| format!("from_value: {e}"))?;
+    let txt = serde_json::to_string(&s).map_err(|e| format!("to_string: {e}"))?;
+    let b: S = serde_json::from_str(&txt).map_err(|e| format!("from_str: {e}"))?;
+    Ok((format!("{s:#?}"), format!("{a:#?}"), format!("{b:#?}"), txt))
+}
+
+fn struct_case(report: &mut Report, preset: Preset, seed: u64) {
+    report.eval();
+    let pname = preset.name();
+    let mut rng = HRng::new(seed);
+    let replay = json!({"kind": "struct", "preset": pname, "seed": seed});
+    let r = match preset {
+        Preset::DiagNuts => { let a = lit_diag(&mut rng); let a = lit_euclid(&mut rng, a); lit_round_trip(lit_nuts(&mut rng, a)) }
+        Preset::LowRankNuts => { let a = lit_lowrank(&mut rng); let a = lit_euclid(&mut rng, a); lit_round_trip(lit_nuts(&mut rng, a)) }
+        Preset::FlowNuts => { let a = lit_flow(&mut rng); lit_round_trip(lit_nuts(&mut rng, a)) }
+        Preset::DiagMclmc => { let a = lit_diag(&mut rng); let a = lit_euclid(&mut rng, a); lit_round_trip(lit_mclmc(&mut rng, a)) }
+        Preset::LowRankMclmc => { let a = lit_lowrank(&mut rng); let a = lit_euclid(&mut rng, a); lit_round_trip(lit_mclmc(&mut rng, a)) }
+        Preset::FlowMclmc => { let a = lit_flow(&mut rng); lit_round_trip(lit_mclmc(&mut rng, a)) }
+    };
+    match r {
+        Err(e) => report.violation(format!("C19:{pname}:roundtrip_error"), e, replay),
+        Ok((orig, via_value, via_string, txt)) => {
+            let mut h = Fnv::new();
+            h.str(pname).str(&txt);
+            report.nontrivial(h.finish());
+            report.count("struct_fields_compared", orig.lines().count() as u64);
+            for (which, other) in [("value", &via_value), ("string", &via_string)] {
+                if &orig != other {
+                    let line = orig.lines().zip(other.lines()).find(|(a, b)| a != b).map(|(a, b)| format!("{} -> {}", a.trim(), b.trim())).unwrap_or_default();
+                    let field = line.split(':').next().unwrap_or("").trim().to_string();
+                    report.violation(format!("C19:{pname}:field_lost_in_{which}_roundtrip:{field}"), line, replay.clone());
+                }
+            }
+        }
+    }
+}
+
 pub fn run(args: &Args, report: &mut Report) {
     report.rule = "per preset: (a) every leaf of the default settings JSON replaced by a random finite value of its type (all enum \
         variants, null/number for options) -> from_value/to_value and to_string/from_str/to_string must be identical; (b) random valid \
         settings -> chains from original, value-round-tripped and string-round-tripped settings, same seed, 45 draws, bitwise equal; \
-        (c) sampler_settings attribute of a Zarr root == to_value(settings); distinct = hash of the settings text".into();
+        (c) sampler_settings attribute of a Zarr root == to_value(settings); (d) settings built as Rust struct literals with every field random -> Debug rendering identical after both round trips; distinct = hash of the settings text".into();
     if let Some(r) = &args.replay {
         let preset = Preset::from_name(r["preset"].as_str().unwrap()).unwrap();
         let seed = r["seed"].as_u64().unwrap();
         match r["kind"].as_str().unwrap() {
             "roundtrip" => roundtrip_case(report, preset, seed),
             "chain" => chain_case(report, preset, seed),
+            "struct" => struct_case(report, preset, seed),
             _ => zarr_case(report, preset, seed),
         }
         return;
@@ -391,10 +534,12 @@ pub fn run(args: &Args, report: &mut Report) {
     let n_rt = report.size(3000, 60000);
     let n_chain = report.size(300, 6000);
     let n_zarr = report.size(60, 600);
-    crate::report::par_run(report, n_rt + n_chain + n_zarr, |i, rep| {
+    crate::report::par_run(report, n_rt + n_chain + n_zarr + n_rt, |i, rep| {
         let preset = ALL_PRESETS[(i % 6) as usize];
         let seed = base.fork(i).next_u64();
-        if i < n_rt {
+        if i >= n_rt + n_chain + n_zarr {
+            struct_case(rep, preset, seed)
+        } else if i < n_rt {
             roundtrip_case(rep, preset, seed)
         } else if i < n_rt + n_chain {
             chain_case(rep, preset, seed)
